@@ -1417,6 +1417,10 @@ func (gs *GossipSubRouter) rpcs(msg *Message) iter.Seq2[peer.ID, *RPC] {
 
 			csum := computeChecksum(gs.p.idGen.ID(msg))
 			for p := range gmap {
+				// a mesh or fanout member that is not (or no longer) subscribed does not get the message
+				if _, inTopic := tmap[p]; !inTopic {
+					continue
+				}
 				// Check if it has already received an IDONTWANT for the message.
 				// If so, don't send it to the peer
 				if _, ok := gs.unwanted[p][csum]; ok {
